@@ -88,7 +88,26 @@ def r1_generator_plumbing(chk: Check) -> None:
                 derived.append(unparse(k))
     arm = guarded[0] if guarded else None
     if arm is not None and derived:
-        rebuilt = {unparse(t.slice) for a in arm.body if isinstance(a, ast.Assign) for t in a.targets if isinstance(t, ast.Subscript)}
+        # a store of a NUL-free strategy under the key, anywhere allow_x00 is known to be off
+        rebuilt: set[str] = set()
+        unconditional: list[ast.Assign] = []
+        for a in walk_body(bcf.node):
+            if not (isinstance(a, ast.Assign) and any(isinstance(t, ast.Subscript) for t in a.targets)):
+                continue
+            facts_ = known_conditions(gb0 := cfg_of(bcf), gb0.stmt_nodes_containing(a))
+            off = next((v for k_, v in facts_.items() if k_.endswith("allow_x00")), None) is False
+            if off and any("header_values(" in x and "\\x00" in x for x in canon(bcf, a.value)):
+                for t in a.targets:
+                    if isinstance(t, ast.Subscript):
+                        rebuilt.add(unparse(t.slice))
+                        # USER-WINS: a format the user registered under that name is not replaced - the store is guarded by an
+                        # identity / membership test against the defaults (HEADER_FORMAT is Schemathesis' own name)
+                        if unparse(t.slice) != "HEADER_FORMAT" and not any((" is " in k_ or " in " in k_) and unparse(t.slice) in k_ for k_ in facts_):
+                            unconditional.append(a)
+        for a in unconditional:
+            chk.violation("C01.R1", bcf, f"`{unparse(a.targets[0], 50)}` is replaced only while it is still the default",
+                          "the store overwrites whatever is under that key after the user's formats were merged in: a strategy registered with `schemathesis.openapi.format(...)` under that name is silently ignored whenever allow_x00 is off",
+                          bcf.loc(a))
         for key in derived:
             construct = f"format {key} (derived from header values) excludes NUL when allow_x00 is off"
             if key in rebuilt:
